@@ -254,4 +254,6 @@ def run(ctx):
     from . import c10, c16
     ctx.do(c10.r10_4_units, modules=("pop3_client", "mbox"))
     ctx.do(c16.r16_1)
+    from . import c05
+    ctx.do(c05.r5_3)
     ctx.note("R20.6 (sizes from the shared renderer) is decided by C16 R16.1")
